@@ -51,7 +51,15 @@ func (w *World) oracleOnBind(p *PodInfo, m *simkube.Mutation) {
 	if w.armed("C01") {
 		for _, ip := range p.IPs {
 			for _, q := range w.livePodsWithIP(ip) {
+				if q.UID != p.UID && w.everDropped[ip] && w.adoptedBy[ip] != q.UID {
+					// the holder's record was lost to a configuration change and never written again: out of scope
+					w.S.Stat("c01.double-bound-after-deconfiguration-out-of-scope")
+					continue
+				}
 				if q.UID != p.UID {
+					if w.everDropped[ip] {
+						w.S.Stat("c01.double-bound-judged-on-readopted-ip")
+					}
 					w.fail("C01.double-bound", w.c04Key("double-bound", q.Key, 0),
 						"IP %s handed to pod %s (uid %s) while live pod %s (uid %s, bound at step %d) holds it", ip, p.key(), p.UID, q.key(), q.UID, q.BoundStep)
 					return
@@ -185,6 +193,25 @@ func (w *World) oracleOnFip(m *simkube.Mutation) {
 		for _, o := range w.K.List("floatingips", "") {
 			if f := decodeFip(o); f.Key == newF.Key && f.IP != ip {
 				w.M.multiIP[newF.Key] = true // the key holds several IPs at once (a multi-IP pod)
+			}
+		}
+	}
+	// per-allocation scope of C01 for an IP that was once taken out of the configuration: the running pod's holding counts
+	// again once galaxy has written a record for that very pod since (adoption by the pod-IP sync pass, or a bind); it stops
+	// counting when the record is deleted while a configuration without the IP can be in force (a legitimate loss)
+	if newF != nil && isPodKey(newF.Key) {
+		if p := w.livePodWithKey(newF.Key); p != nil && p.Node != "" && hasStr(p.IPs, ip) && (newF.UID == "" || newF.UID == p.UID) {
+			if w.adoptedBy == nil {
+				w.adoptedBy = map[string]string{}
+			}
+			w.adoptedBy[ip] = p.UID
+		}
+	}
+	if newF == nil && w.adoptedBy[ip] != "" {
+		for i := w.inForceLB; i < len(w.confVers); i++ {
+			if _, in := w.confVers[i][ip]; !in {
+				delete(w.adoptedBy, ip)
+				break
 			}
 		}
 	}
